@@ -295,7 +295,8 @@ pub fn gen_poly_circuit(r: &mut Rng, big: bool) -> Plain {
     let mut pool: Vec<usize> = (0..nin).collect();
     let mut nw = nin;
     let mut e = vec![];
-    for _ in 0..r.range(0, if big { 8 } else { 6 }) {
+    let huge = r.chance(1, if big { 20 } else { 150 });
+    for _ in 0..(if huge { r.range(9, 24) } else { r.range(0, if big { 8 } else { 6 }) }) {
         let cands: Vec<L> = [func::ADD, func::MUL, func::NEG, func::COPY, func::DISCARD, func::CONST + r.below(5) as L].into_iter().filter(|a| func::arity(*a).0 <= pool.len()).collect();
         let a = *r.pick(&cands);
         let (m, n) = func::arity(a);
@@ -328,9 +329,9 @@ impl Check for C14 {
     fn generate(r: &mut Rng, tier: Tier) -> Case {
         if r.chance(1, 2) {
             let mut c = gen::draw_cfg(r, tier);
-            c.max_extra_nodes = c.max_extra_nodes.min(3);
-            c.max_edges = c.max_edges.min(2);
-            c.max_iface = c.max_iface.min(3);
+            c.max_extra_nodes = c.max_extra_nodes.min(if c.large { 6 } else { 3 });
+            c.max_edges = c.max_edges.min(if c.large { 4 } else { 2 });
+            c.max_iface = c.max_iface.min(if c.large { 4 } else { 3 });
             c.max_arity = c.max_arity.min(2);
             let (f, g) = gen::gen_pair(r, &c);
             Case::Typing(TypingCase { f, g, spec: gen_ospec(r, c.node_labels), schedules: r.range(1, 2) })
